@@ -2822,7 +2822,15 @@ class LinearOperator(object):
         # Pad the index with empty indices
         index = index + tuple(_noop_index for _ in range(ndimension - len(index)))
 
-        # Negative entries of tensor indices count from the end (as they do for torch.Tensor)
+        # Entries of tensor indices have to be in range, negative entries count from the end (as for torch.Tensor)
+        for dim, (idx, size) in enumerate(zip(index, self.shape)):
+            if torch.is_tensor(idx) and idx.dtype != torch.bool and idx.numel():
+                if idx.min() < -size or idx.max() >= size:
+                    raise IndexError(
+                        "index {} is out of bounds for dimension {} with size {}".format(
+                            (idx.min() if idx.min() < -size else idx.max()).item(), dim, size
+                        )
+                    )
         index = tuple(
             torch.where(idx < 0, idx + size, idx) if torch.is_tensor(idx) and idx.dtype != torch.bool else idx
             for idx, size in zip(index, self.shape)
